@@ -98,6 +98,7 @@ func forTableShapes(r *ev.Run, b shapeBounds, fn func(si *ShapeImage)) {
 		t1.Tree = j.tree
 		t1.Layout = layoutVariants[j.lv]
 		spec := &dbgen.Spec{PageSize: b.PageSize, Tables: []dbgen.Table{t1}}
+		spec.LegacyHeader = j.lv * (1 + j.n%2) // the second layout also carries the header of a legacy writer (size field 0 / stale)
 		img, err := dbgen.Build(spec)
 		if err != nil {
 			r.Harness("dbgen table shape %s n=%d: %v", j.tree, j.n, err)
@@ -177,6 +178,7 @@ func forIndexShapes(r *ev.Run, b shapeBounds, fn func(si *ShapeImage)) {
 			t2.Indexes[0].Layout = layoutVariants[j.lv]
 			spec = &dbgen.Spec{PageSize: b.PageSize, Tables: []dbgen.Table{t2}}
 		}
+		spec.LegacyHeader = j.lv * (1 + j.n%2)
 		img, err := dbgen.Build(spec)
 		if err != nil {
 			r.Harness("dbgen index shape %s %s n=%d: %v", j.object, j.tree, j.n, err)
